@@ -283,6 +283,10 @@ def check_search(c2, c3, repo, ctor, f, kind):
         if st is top:
             break
         if isinstance(st, ast.If) and not st.orelse and len(st.body) == 1 and isinstance(st.body[0], ast.Continue):
+            # `if len(s) > len(buffer): continue` -- a string longer than the buffer cannot occur in it: skipping it changes nothing
+            tt = ctext(st.test, f, stale_ok=True)
+            if kind == 'string' and tt in ('len(%s) > len(%s)' % (pat, buf), 'len(%s) < len(%s)' % (buf, pat)):
+                continue
             guards.append((st.test, False))
         elif isinstance(st, ast.If) and any(isinstance(x, (ast.Continue, ast.Break, ast.Return, ast.Raise))
                                             for x in ast.walk(st)):
